@@ -24,12 +24,19 @@ import (
 
 // C20: saving a package writes exactly its files, unchanged unless edited.
 
-var c20Pool = []string{"call", "blank", "dotted", "typepos"}
+var c20Pool = []string{"call", "blank", "dotted", "typepos", "@usesXa", "@usesXb"}
+
+// two files that use different packages with the same name (x): an alias generated for one file must
+// not leak into another
+var c20Inline = map[string]string{
+	"@usesXa": "package a\n\nimport \"a.b/x\"\n\nvar va = x.V\n",
+	"@usesXb": "package a\n\nimport \"c.d/x\"\n\nvar vb = x.V\n\nvar wb = x.K\n",
+}
 
 type c20Case struct {
 	Files   []string `json:"files"`   // template names, in Syntax order
 	Dirs    []int    `json:"dirs"`    // directory (0/1) of each file
-	Edits   []int    `json:"edits"`   // 0 none, 1 append a declaration needing a new import, 2 remove the last declaration
+	Edits   []int    `json:"edits"`   // 0 none, 1 append a declaration needing a new import, 2 remove the last declaration, 3 append references to two packages with one name
 	Choices []int    `json:"choices"` // fault choices (one per resolver call)
 }
 
@@ -37,7 +44,7 @@ func init() {
 	core.Register(&core.Prop{
 		ID:    "C20",
 		Level: "fault_enumeration",
-		Rule: "hand-built decorator.Package values (1-3 files chosen from 4 import-bearing canonical sources, in 1-2 directories of a fresh temporary tree that also holds unrelated files) x every assignment of {unedited, declaration needing a new import appended, last declaration removed} to the files " +
+		Rule: "hand-built decorator.Package values (1-3 files chosen from 6 import-bearing canonical sources (two of which use different packages of the same name), in 1-2 directories of a fresh temporary tree that also holds unrelated files) x every assignment of {unedited, declaration needing a new import appended, last declaration removed, declarations referring to two equally named packages appended} to the files " +
 			"x every position of the package-name resolver's call sequence failed (choice tree, one failure), through Package.SaveWithResolver on the real file system; oracle: directory snapshot (paths, bytes, modes) before/after: no path appears or disappears, " +
 			"each saved file equals an independently computed import-managed print of a clone, unedited files are byte-identical, on failure the error is returned (wrapping the resolver's), the failing file and every later file are untouched; non-trivial = case with an edit or a failure",
 		Assumptions: []string{"decorator.Load itself (go/packages) is not exercised: packages are built by hand with the same Decorator/Filenames/Syntax fields Load fills in"},
@@ -81,6 +88,18 @@ func runC20(ctx *core.Ctx, unit int) {
 			}
 			return
 		}
+		if n == 3 && !ctx.Thorough() {
+			// quick tier: triples drawn from the first three sources, or containing both same-name files
+			hasA, hasB, small := false, false, true
+			for _, f := range files {
+				hasA = hasA || f == "@usesXa"
+				hasB = hasB || f == "@usesXb"
+				small = small && (f == c20Pool[0] || f == c20Pool[1] || f == c20Pool[2])
+			}
+			if !small && !(hasA && hasB) {
+				return
+			}
+		}
 		ndirs := 1 << (n - 1) // file 0 always in dir 0
 		for dm := 0; dm < ndirs; dm++ {
 			dirs := make([]int, n)
@@ -89,14 +108,14 @@ func runC20(ctx *core.Ctx, unit int) {
 			}
 			ne := 1
 			for i := 0; i < n; i++ {
-				ne *= 3
+				ne *= 4
 			}
 			for em := 0; em < ne; em++ {
 				edits := make([]int, n)
 				x := em
 				for i := range edits {
-					edits[i] = x % 3
-					x /= 3
+					edits[i] = x % 4
+					x /= 4
 				}
 				if ctx.Expired() {
 					ctx.Cut("configurations")
@@ -168,6 +187,9 @@ func c20Exec(cs c20Case, c *explore.Chooser) core.Outcome {
 	srcs := map[string]string{}
 	for i, tn := range cs.Files {
 		t, ok := gen.Find(importTemplates(), tn)
+		if s, inline := c20Inline[tn]; inline {
+			t, ok = gen.Template{Name: tn, Src: s}, true
+		}
 		if !ok {
 			panic("unknown template " + tn)
 		}
@@ -197,6 +219,14 @@ func c20Exec(cs c20Case, c *explore.Chooser) core.Outcome {
 			}}})
 		case 2:
 			f.Decls = f.Decls[:len(f.Decls)-1]
+		case 3:
+			// references to both packages named x: the restorer has to generate a conflict alias
+			for j, p := range []string{"a.b/x", "c.d/x"} {
+				f.Decls = append(f.Decls, &dst.GenDecl{Tok: token.VAR, Specs: []dst.Spec{&dst.ValueSpec{
+					Names:  []*dst.Ident{dst.NewIdent(fmt.Sprintf("conflict%d_%d", i, j))},
+					Values: []dst.Expr{&dst.Ident{Name: "V", Path: p}},
+				}}})
+			}
 		}
 	}
 	// independent expectation, computed on clones before saving
